@@ -197,6 +197,42 @@ pub fn own_prefix_case(r: &mut Rng, public: bool) -> String {
     format!("{{| c_self := {}; c_univ := {}; c_steps := [{}] |}}", n_hex(&self_id), univ_coq(&u), out.join(";\n "))
 }
 
+/// addresses right next to the private, loopback and link-local ranges are ordinary public addresses: of several nodes
+/// with arbitrary ids behind one of them only one may stay
+pub fn exempt_neighbours_case(r: &mut Rng) -> String {
+    let self_id = id20(r);
+    let ips: [[u8; 4]; 12] = [
+        [172, 32, 0, 0], [172, 32, 7, 9], [172, 15, 255, 255], [11, 0, 0, 0], [9, 255, 255, 255], [128, 0, 0, 1], [126, 255, 255, 255],
+        [192, 167, 255, 255], [192, 169, 0, 0], [169, 253, 255, 255], [169, 255, 0, 0], [172, 16, 0, 1],
+    ];
+    let mut u: Vec<UNode> = Vec::new();
+    for ip in ips.iter() {
+        for k in 0..3u16 {
+            u.push(UNode { id: id_at_distance(&self_id, 160 - k as usize * 7, r), ip: u32::from_be_bytes(*ip), port: 1000 + k });
+        }
+    }
+    let mut t = RoutingTable::new(Id::from(self_id));
+    let now: u64 = 1000;
+    simclock::set_ms(now);
+    let mut out: Vec<String> = Vec::new();
+    let mut order: Vec<usize> = (0..u.len()).collect();
+    r.shuffle(&mut order);
+    for k in order {
+        let ret = t.add(u[k].node());
+        let nodes = t.to_owned_nodes();
+        out.push(format!(
+            "{{| s_now := {}; s_op := OAdd {}%nat; s_ret := {}; s_size := {}; s_empty := {}; s_dump := {}; s_boot := None |}}",
+            z(now as i128),
+            k,
+            boolean(ret),
+            t.size(),
+            boolean(t.is_empty()),
+            idx_list(&u, &nodes)
+        ));
+    }
+    format!("{{| c_self := {}; c_univ := {}; c_steps := [{}] |}}", n_hex(&self_id), univ_coq(&u), out.join(";\n "))
+}
+
 /// a known id that turns up at another address: the per-IP rules apply to the move as to any newcomer (no second node
 /// with the same 21-bit prefix on that IP)
 pub fn moving_ip_case(r: &mut Rng) -> String {
@@ -244,6 +280,7 @@ pub fn generate(seed: u64, scale: usize) -> Cases {
     for k in 0..4 {
         cases.push("same_ip_own_prefix", own_prefix_case(&mut r, k % 2 == 0));
     }
+    cases.push("neighbours_of_the_exempt_ranges", exempt_neighbours_case(&mut r));
     for _ in 0..(3 * scale.max(1)) {
         for &(n, steps, ips) in shapes {
             cases.push(&format!("n{}_s{}", n, steps), one_case(&mut r, n, steps, ips));
